@@ -19,6 +19,21 @@ JOBS = int(os.environ.get("VERIF_KANI_JOBS", "10"))
 
 
 def strip_verus_contracts(src):
+    # remove `proof { ... }` blocks (balanced), then requires/ensures lines and named returns
+    while True:
+        m = re.search(r"\bproof\s*\{", src)
+        if not m:
+            break
+        d, j = 0, m.end() - 1
+        while j < len(src):
+            if src[j] == "{":
+                d += 1
+            elif src[j] == "}":
+                d -= 1
+                if d == 0:
+                    break
+            j += 1
+        src = src[:m.start()] + src[j + 1:]
     out = []
     for ln in src.split("\n"):
         st = ln.strip()
